@@ -35,6 +35,7 @@
 (*   <<3, ft, 0, sym>>        ec_*_uint   (ft <= 256 here)                  *)
 (*   <<4, n, 0, value>>       ec_*_bits   (raw bits)                        *)
 (*   <<5, fs, decay, value>>  ec_laplace_*                                  *)
+(*   <<7, k, 0, 0>>           k one-bit symbols (logp 1) of value 0            *)
 (*   <<6, f, c, seed>>        one speech frame body (indices + excitation), *)
 (*                            f = 100*channel + 10*frame + lbrr,            *)
 (*                            c = 10*condCoding + voiceActivityClass        *)
@@ -152,6 +153,12 @@ MinGap(T, k, prev) == IF k > Len(T) THEN 100000 ELSE Min(prev - T[k], MinGap(T, 
 CeilLog2(x) == R!Ilog(x - 1)                                  \* x >= 1
 IcdfWorstBits(tid, ftb) == LET T == TblById[tid] IN ftb - (R!Ilog(MinGap(T, 1, P2(ftb))) - 1)
 
+\* k one-bit symbols halve the range k times: from the initial state in closed form (FrameHdr_mc: PreClosedForm)
+RECURSIVE Halve(_, _)
+Halve(c, k) == IF k = 0 THEN c ELSE Halve(RcSym(c, 0, 1, 2), k - 1)
+RcPre(c, k) == IF c = RcInit /\ k > 0
+               THEN [nbits |-> 33 + 8 * (k \div 8), rm |-> IF k % 8 = 0 THEN R!TOPM ELSE P2(31 - (k % 8)) - 1]
+               ELSE Halve(c, k)
 \* the effect of op on the counter (kind 6 is opaque)
 RcOp(c, op) ==
   CASE op[1] = 1 -> LET iv == BitIv(op[2], op[4]) IN RcSym(c, iv[1], iv[2], iv[3])
@@ -159,6 +166,7 @@ RcOp(c, op) ==
     [] op[1] = 3 -> RcSym(c, op[4], op[4] + 1, op[2])
     [] op[1] = 4 -> RcRaw(c, op[2])
     [] op[1] = 5 -> LET iv == S!LapInterval(op[2], op[3], op[4]) IN RcSym(c, iv[1], iv[2], 32768)
+    [] op[1] = 7 -> RcPre(c, op[2])
     [] OTHER -> c
 
 -----------------------------------------------------------------------------
@@ -166,8 +174,9 @@ RcOp(c, op) ==
 (*  rq    the request: frame parameters and the abstract symbol stream vals *)
 (*  c     bit counter; i index of the next unused choice                    *)
 (*  ops   the symbols read so far, dl every decision incl. skipped symbols   *)
-(*  need  the first op that found the stream exhausted (<<>>: none) - used  *)
-(*        by the model checker to extend the stream one choice at a time    *)
+(*  need  the first steering op that found the stream exhausted (<<>>: none) *)
+(*        and needAt its position in the stream - used by the model checker  *)
+(*        to extend the stream one choice at a time                          *)
 (*  pc    what is decided next; h the header decoded so far; x scratch      *)
 
 Choice(ds) == IF ds.i <= Len(ds.rq.vals) THEN ds.rq.vals[ds.i] ELSE 0
@@ -187,10 +196,15 @@ Put(ds, name, op) ==
              !.dl = Append(ds.dl, <<name, TRUE>>)]
 \* a symbol whose value is the next choice of the stream (the readers); val(ch) maps the choice
 \* into the alphabet of the symbol
+\* symbols whose value steers nothing (neither a later decision nor the counter): raw bits, the stereo weights,
+\* the frame bodies; an exhausted stream reads them as 0 without asking for more
+Steers(op3) == op3[1] \notin {4, 6} /\ ~(op3[1] = 2 /\ op3[3] \in {T_JOINT, T_UNI3, T_UNI5})
 Get(ds, name, op3, v) ==
-  LET d == Put(ds, name, <<op3[1], op3[2], op3[3], v>>) IN
+  LET d == Put(ds, name, <<op3[1], op3[2], op3[3], v>>)
+      ask == ds.need = <<>> /\ ds.i > Len(ds.rq.vals) /\ Steers(op3) IN
   [d EXCEPT !.i = ds.i + 1,
-            !.need = IF ds.need = <<>> /\ ds.i > Len(ds.rq.vals) THEN op3 ELSE ds.need]
+            !.need = IF ask THEN op3 ELSE ds.need,
+            !.needAt = IF ask THEN ds.i ELSE ds.needAt]
 Skip(ds, name) == [ds EXCEPT !.dl = Append(ds.dl, <<name, FALSE>>)]
 
 RdBit(ds, name, logp)       == Get(ds, name, <<1, logp, 0>>, Choice(ds) % 2)
@@ -215,7 +229,7 @@ H0 == [silence |-> 0, pf |-> 0, octave |-> 0, period |-> 0, qg |-> 0, tapset |->
 X0 == [k |-> 0, tfb |-> 0, logp |-> 0, curr |-> 0, chg |-> 0, rsv |-> FALSE, totf |-> 0, tellf |-> 0,
        dlogp |-> 6, llogp |-> 0, boost |-> 0, tboost |-> 0, nb |-> 0]
 
-InitDs(rq, pc0) == [rq |-> rq, c |-> RcInit, cok |-> TRUE, i |-> 1, ops |-> <<>>, dl |-> <<>>, need |-> <<>>,
+InitDs(rq, pc0) == [rq |-> rq, c |-> RcInit, cok |-> TRUE, i |-> 1, ops |-> <<>>, dl |-> <<>>, need |-> <<>>, needAt |-> 0,
                     last |-> 0, pc |-> pc0, b |-> 0, ch |-> 0, tellv |-> 0, h |-> H0,
                     x |-> [X0 EXCEPT !.k = rq.pre]]
 
@@ -228,24 +242,27 @@ Quanta(i, LM, C) == LET w == C * BandWidth(i) * P2(LM) IN Min(8 * w, Max(48, w))
 
 \* the reservations taken after the last header symbol: celt_decode_with_ec (anti-collapse) and the
 \* head of clt_compute_allocation (skip, intensity, dual stereo); everything in 1/8 bit
+\* head of clt_compute_allocation(total, C, start, end): skip, intensity, dual stereo
+AllocRsv(total, C, nbands) ==
+  LET t0 == Max(total, 0)
+      skip == IF t0 >= 8 THEN 8 ELSE 0
+      t1 == t0 - skip
+      ir0 == IF C = 2 THEN Log2Frac[nbands + 1] ELSE 0
+      irsv == IF ir0 > t1 THEN 0 ELSE ir0
+      t2 == t1 - irsv
+      drsv == IF C = 2 /\ ir0 <= t1 /\ t2 >= 8 THEN 8 ELSE 0
+  IN [skip |-> skip, irsv |-> irsv, drsv |-> drsv, atotal |-> t2 - drsv]
 Reserve(h, rq, tellf) ==
   LET bits0 == 64 * rq.len - tellf - 1
       acr == IF h.transient = 1 /\ rq.LM >= 2 /\ bits0 >= (rq.LM + 2) * 8 THEN 8 ELSE 0
-      bits == bits0 - acr
-      t0 == Max(bits, 0)
-      skip == IF t0 >= 8 THEN 8 ELSE 0
-      t1 == t0 - skip
-      ir0 == IF rq.C = 2 THEN Log2Frac[rq.end - rq.start + 1] ELSE 0
-      irsv == IF ir0 > t1 THEN 0 ELSE ir0
-      t2 == t1 - irsv
-      drsv == IF rq.C = 2 /\ ir0 <= t1 /\ t2 >= 8 THEN 8 ELSE 0
-  IN [h EXCEPT !.bits = bits, !.acr = acr, !.skip = skip, !.irsv = irsv, !.drsv = drsv, !.atotal = t2 - drsv]
+      a == AllocRsv(bits0 - acr, rq.C, rq.end - rq.start)
+  IN [h EXCEPT !.bits = bits0 - acr, !.acr = acr, !.skip = a.skip, !.irsv = a.irsv, !.drsv = a.drsv, !.atotal = a.atotal]
 
 \* one decision of the DECODER (celt_decode_with_ec)
 CeltDecStep(ds) ==
   LET rq == ds.rq  tot == Total(rq)  LM == rq.LM  C == rq.C  h == ds.h  x == ds.x IN
   CASE ds.pc = "pre" ->
-         IF x.k > 0 THEN [Put(ds, "pre", <<1, 1, 0, 0>>) EXCEPT !.x.k = x.k - 1]
+         IF x.k > 0 THEN [Put(ds, "pre", <<7, x.k, 0, 0>>) EXCEPT !.x.k = 0]
          ELSE [ds EXCEPT !.pc = "silence", !.tellv = Tell(ds.c), !.h.tell0 = Tell(ds.c)]
     [] ds.pc = "silence" ->
          \* tell >= total_bits: silence without reading; tell == 1: the flag; otherwise no silence
@@ -340,6 +357,15 @@ CeltDecStep(ds) ==
 RECURSIVE CeltDecRun(_)
 CeltDecRun(ds) == IF ds.pc = "done" THEN ds ELSE Only({CeltDecRun(d) : d \in {CeltDecStep(ds)}})
 CeltDec(rq) == CeltDecRun(InitDs(rq, "pre"))
+\* the same machine, pausing in front of the first symbol that finds the stream exhausted (need says which)
+\* and resumed with one more choice: the model checker grows the stream this way
+CeltDecPause(ds) == Only({IF d.need # <<>> THEN [ds EXCEPT !.need = d.need, !.needAt = d.needAt] ELSE d : d \in {CeltDecStep(ds)}})
+RECURSIVE CeltDecRunP(_)
+CeltDecRunP(ds) == IF ds.pc = "done" \/ ds.need # <<>> THEN ds ELSE Only({CeltDecRunP(d) : d \in {CeltDecPause(ds)}})
+CeltDecStart(rq) == CeltDecRunP(InitDs(rq, "pre"))
+\* the stream grown to reach position at, with v there (zeros for the non-steering symbols in between)
+Grow(vals, at, v) == [j \in 1..at |-> IF j <= Len(vals) THEN vals[j] ELSE IF j = at THEN v ELSE 0]
+CeltDecFeed(ds, v) == CeltDecRunP([ds EXCEPT !.rq.vals = Grow(@, ds.needAt, v), !.need = <<>>])
 
 (* The ENCODER's order (celt_encode_with_ec, quant_coarse_energy_impl, tf_encode), writing the header  *)
 (* w it wants where its own guards allow; what it cannot write takes the default.  Only the bitstream  *)
@@ -350,7 +376,7 @@ AvailBytes(rq, tell0) == rq.len - ((tell0 + 4) \div 8)
 CeltEncStep(ds) ==
   LET rq == ds.rq  tot == Total(rq)  LM == rq.LM  C == rq.C  h == ds.h  x == ds.x  w == rq.w IN
   CASE ds.pc = "pre" ->
-         IF x.k > 0 THEN [Put(ds, "pre", <<1, 1, 0, 0>>) EXCEPT !.x.k = x.k - 1]
+         IF x.k > 0 THEN [Put(ds, "pre", <<7, x.k, 0, 0>>) EXCEPT !.x.k = 0]
          ELSE [ds EXCEPT !.pc = "silence", !.tellv = Tell(ds.c), !.h.tell0 = Tell(ds.c)]
     [] ds.pc = "silence" ->
          IF ds.tellv = 1
@@ -472,12 +498,15 @@ HdrSeq(h) == <<h.silence, h.pf, h.period, h.qg, h.tapset, h.transient, h.intra, 
 
 \* guard adequacy: a symbol that passed its guard cannot push tell past the budget
 \* ("pre" symbols are outside the frame); after the silence flag tell is the budget itself
+BudgetSafeLast(ds) == ds.ops = <<>> \/ ds.ops[Len(ds.ops)].n = "pre" \/ StepTell(ds.ops[Len(ds.ops)]) <= Total(ds.rq)
 BudgetSafe(ds) == \A j \in 1..Len(ds.ops) : ds.ops[j].n = "pre" \/ StepTell(ds.ops[j]) <= Total(ds.rq)
 \* the static reason: the guard of every symbol is at least its worst-case cost in bits
 GuardBitsOK ==
   /\ IcdfWorstBits(T_TAPSET, 2) <= 2 /\ IcdfWorstBits(T_SMALL, 2) <= 2
   /\ IcdfWorstBits(T_SPREAD, 5) <= 4 /\ IcdfWorstBits(T_TRIM, 7) <= 6
   /\ 1 + CeilLog2(6) + (4 + 5) + 3 <= 16          \* post-filter flag, octave, longest period, gain
+\* the closed form used for the symbols in front of the frame
+PreClosedForm(k) == RcPre(RcInit, k) = Halve(RcInit, k) /\ Tell(RcPre(RcInit, k)) = 1 + k
 \* the reservations never take more than there is
 ReserveOK(ds) == LET h == ds.h IN
   /\ h.acr + h.skip + h.irsv + h.drsv + h.atotal = Max(h.bits, 0) + h.acr
@@ -514,14 +543,16 @@ TapsetAlwaysRead(ds) ==
 
 Z3 == <<0, 0, 0>>
 SilkInit(rq, pdom) ==
-  [rq |-> rq, c |-> RcInit, cok |-> TRUE, i |-> 1, ops |-> <<>>, dl |-> <<>>, need |-> <<>>, last |-> 0,
+  [rq |-> rq, c |-> RcInit, cok |-> TRUE, i |-> 1, ops |-> <<>>, dl |-> <<>>, need |-> <<>>, needAt |-> 0, last |-> 0,
    nfd |-> 0, vad |-> <<Z3, Z3>>, lbrrf |-> <<0, 0>>, lbrr |-> <<Z3, Z3>>, pdom |-> pdom, dom |-> 0,
    calls |-> <<>>]
 
 BitOfN(x, k) == (x \div P2(k)) % 2
 FrameOp(n, fr, lb) == 100 * n + 10 * fr + lb
-StereoPred(ds, tag) ==            \* silk_stereo_decode_pred: joint index, then (3-way, 5-way) per predictor
-  RdIcdf(RdIcdf(RdIcdf(RdIcdf(RdIcdf(ds, tag, T_JOINT, 8), tag, T_UNI3, 8), tag, T_UNI5, 8), tag, T_UNI3, 8), tag, T_UNI5, 8)
+PredTables == <<T_JOINT, T_UNI3, T_UNI5, T_UNI3, T_UNI5>>
+RECURSIVE StereoPredK(_, _, _)
+StereoPredK(ds, tag, k) == IF k > 5 THEN ds ELSE Only({StereoPredK(d, tag, k + 1) : d \in {RdIcdf(ds, tag, PredTables[k], 8)}})
+StereoPred(ds, tag) == StereoPredK(ds, tag, 1)   \* silk_stereo_decode_pred: joint index, then (3-way, 5-way) per predictor
 
 \* VAD flags and LBRR flag per channel, then the per-frame LBRR flags
 RECURSIVE RdFlags(_, _, _)
@@ -683,8 +714,6 @@ SilkMirrorOK(rq) ==
     OpsOf(d) = OpsOf(e) /\ d.need = <<>>
 \* the flag placeholder: (nf+1)*nch one-bit symbols of any value leave the counter where one symbol of
 \* probability 2^-((nf+1)*nch) leaves it (silk_Encode reserves the flags that way and patches them in)
-RECURSIVE Halve(_, _)
-Halve(c, k) == IF k = 0 THEN c ELSE Halve(RcSym(c, 0, 1, 2), k - 1)
 PlaceholderOK(nf, nch, ds) ==
   LET nb == (nf + 1) * nch
       ph == RcSym(RcInit, 0, P2(8 - nb), 256) IN
